@@ -741,6 +741,35 @@ fn mk_fmt(c: char) -> ImageFormat {
     }
 }
 
+
+/// the caller's reader for blob and image data: a legal `Read` that hands out the bytes in short pieces
+/// (sizes derived from the data itself, so that runs are reproducible); every third blob reads in one piece
+pub struct PieceReader {
+    data: Vec<u8>,
+    pos: usize,
+    k: usize,
+}
+impl PieceReader {
+    pub fn new(data: Vec<u8>) -> Self {
+        PieceReader { data, pos: 0, k: 0 }
+    }
+}
+impl std::io::Read for PieceReader {
+    fn read(&mut self, buf: &mut [u8]) -> std::io::Result<usize> {
+        let left = self.data.len() - self.pos;
+        let mut n = buf.len().min(left);
+        if self.data.len() % 3 != 0 && n > 1 {
+            // short reads: 1, 7, 1000, 4096, 10, ... bytes
+            let sizes = [1usize, 7, 1000, 4096, 10, 8191, 3, 512];
+            n = n.min(sizes[(self.k + self.data.len()) % sizes.len()]);
+        }
+        self.k += 1;
+        buf[..n].copy_from_slice(&self.data[self.pos..self.pos + n]);
+        self.pos += n;
+        Ok(n)
+    }
+}
+
 /// what happened when the program ran on the real crate
 pub struct Run {
     pub results: Vec<String>, // one token per statement, protocol form
@@ -826,7 +855,7 @@ pub fn execute(prog: &Program, dev: &SimDev) -> Run {
             }
             Stmt::Blob(d) => {
                 let bytes = d.bytes();
-                let r = guarded(|| w.add_blob(&mut std::io::Cursor::new(bytes)));
+                let r = guarded(|| w.add_blob(&mut PieceReader::new(bytes)));
                 match &r {
                     Ok(Ok(b)) => results.push(format!("ok:{}:{}", b.offset, b.length)),
                     _ => results.push(res(&r).into()),
@@ -975,28 +1004,28 @@ pub fn execute(prog: &Program, dev: &SimDev) -> Run {
                         ImgStmt::Tr(x) => iw.set_transform(mk_tr(x)),
                         ImgStmt::Acq(d) => iw.set_acquisition(mk_dt(d)),
                         ImgStmt::Vis { fmt, data, w: wd, h, mask } => {
-                            let mut d = std::io::Cursor::new(data.bytes());
-                            let mut m = mask.as_ref().map(|m| std::io::Cursor::new(m.bytes()));
+                            let mut d = PieceReader::new(data.bytes());
+                            let mut m = mask.as_ref().map(|m| PieceReader::new(m.bytes()));
                             let props = VisualReferenceImageProperties { width: *wd, height: *h };
                             r = guarded(|| iw.add_visual_reference(mk_fmt(*fmt), &mut d, props, m.as_mut().map(|x| x as &mut dyn std::io::Read)));
                         }
                         ImgStmt::Pin { fmt, data, w: wd, h, f, mask } => {
-                            let mut d = std::io::Cursor::new(data.bytes());
-                            let mut m = mask.as_ref().map(|m| std::io::Cursor::new(m.bytes()));
+                            let mut d = PieceReader::new(data.bytes());
+                            let mut m = mask.as_ref().map(|m| PieceReader::new(m.bytes()));
                             let g = |i: usize| f64::from_bits(f[i]);
                             let props = PinholeImageProperties { width: *wd, height: *h, focal_length: g(0), pixel_width: g(1), pixel_height: g(2), principal_x: g(3), principal_y: g(4) };
                             r = guarded(|| iw.add_pinhole(mk_fmt(*fmt), &mut d, props, m.as_mut().map(|x| x as &mut dyn std::io::Read)));
                         }
                         ImgStmt::Sph { fmt, data, w: wd, h, f, mask } => {
-                            let mut d = std::io::Cursor::new(data.bytes());
-                            let mut m = mask.as_ref().map(|m| std::io::Cursor::new(m.bytes()));
+                            let mut d = PieceReader::new(data.bytes());
+                            let mut m = mask.as_ref().map(|m| PieceReader::new(m.bytes()));
                             let g = |i: usize| f64::from_bits(f[i]);
                             let props = SphericalImageProperties { width: *wd, height: *h, pixel_width: g(0), pixel_height: g(1) };
                             r = guarded(|| iw.add_spherical(mk_fmt(*fmt), &mut d, props, m.as_mut().map(|x| x as &mut dyn std::io::Read)));
                         }
                         ImgStmt::Cyl { fmt, data, w: wd, h, f, mask } => {
-                            let mut d = std::io::Cursor::new(data.bytes());
-                            let mut m = mask.as_ref().map(|m| std::io::Cursor::new(m.bytes()));
+                            let mut d = PieceReader::new(data.bytes());
+                            let mut m = mask.as_ref().map(|m| PieceReader::new(m.bytes()));
                             let g = |i: usize| f64::from_bits(f[i]);
                             let props = CylindricalImageProperties { width: *wd, height: *h, radius: g(0), principal_y: g(1), pixel_width: g(2), pixel_height: g(3) };
                             r = guarded(|| iw.add_cylindrical(mk_fmt(*fmt), &mut d, props, m.as_mut().map(|x| x as &mut dyn std::io::Read)));
